@@ -184,7 +184,11 @@ def classify(res: dict, reason: str) -> dict:
     if "Traceback (most recent call last)" in text or "INTERNAL ERROR" in text:
         exc, f, fn, caller = innermost_from_traceback(text)
         if "maximum semantic analysis iteration count" in text and fn is None:
-            return {"class": "semanal-iteration-cap", "exc": None, "file": "semanal_main.py", "frame": "report_hang"}
+            # which of the two loops gave up: the function loop is left at a smaller counter value than the
+            # top-level loop can reach, so the larger of the two observed maxima tells
+            t = res.get("trace") or {}
+            loop = "top-levels" if t.get("top_iters", 0) > t.get("func_iters", 0) else "function"
+            return {"class": "semanal-iteration-cap", "exc": None, "file": "semanal_main.py", "frame": "report_hang", "loop": loop}
         return {"class": "crash", "exc": exc, "file": f, "frame": fn, "caller": caller}
     return {"class": "trace-rejected", "reason": reason}
 
@@ -618,7 +622,19 @@ def batch_search(ctx: Ctx, runner: Runner) -> None:
 # ===================================================================================== search: daemon
 def make_histories(ctx: Ctx, nhist: int, steps: int) -> list[list[dict]]:
     rng = ctx.rng
-    cases = [c for c in corpus.load(REPO) if not c.flags]
+    stdlib = os.path.join(REPO, "mypy", "typeshed", "stdlib")
+
+    def shadows(c) -> bool:
+        # an extra file named like a stdlib module (builtins.py, typing.pyi …) is rejected up front by a batch run
+        # ("shadows library module") but not by the daemon: such cases are left to the batch stream
+        for n in c.files:
+            top = n.split("/")[0].rsplit(".", 1)[0]
+            if os.path.exists(os.path.join(stdlib, top + ".pyi")) or os.path.isdir(os.path.join(stdlib, top)) \
+                    or top in ("typing_extensions", "mypy_extensions", "_typeshed"):
+                return True
+        return False
+
+    cases = [c for c in corpus.load(REPO) if not c.flags and not shadows(c)]
     plain = [c for c in cases if len(c.main) < 4000]
     hists = []
     for _ in range(nhist):
@@ -835,15 +851,18 @@ def daemon_search(ctx: Ctx, runner: Runner) -> None:
         resp = r.get("resp") or {}
         got = [l for l in (resp.get("out") or "").split("\n") if l.strip()]
         ctx.count("daemon_probes_compared")
-        if sorted(got) == sorted(fresh) and resp.get("status") == rc:
+        # (the status is not compared: `dmypy check` answers 1 for note-only output, `mypy` exits 0 — C13's subject)
+        if sorted(got) == sorted(fresh):
             continue
         ndiff += 1
         ctx.count("disagreements_checked")
         only_daemon = sorted(set(got) - set(fresh))
         only_fresh = sorted(set(fresh) - set(got))
         left = (r.get("trace") or {}).get("left_deferred", 0)
-        obs = {"class": "daemon-differs-from-fresh", "mode": "daemon",
+        obs = {"class": "daemon-differs-from-fresh", "mode": "daemon", "left_deferred": bool(left),
                "only_fresh_has_lines": bool(only_fresh), "only_daemon_has_lines": bool(only_daemon)}
+        if deleted_module_pattern(only_daemon, only_fresh):
+            obs = {"class": "daemon-differs-from-fresh", "mode": "daemon", "detail": "deleted-module-still-known"}
         known = ctx.match_known(obs)
         if known is not None and any(k == known["id"] for k, _ in ctx.known_hits):
             continue
@@ -908,6 +927,25 @@ def shrink_history(ctx: Ctx, runner: Runner, steps: list[dict], obs: dict, budge
     return cur
 
 
+def deleted_module_pattern(only_daemon: list[str], only_fresh: list[str]) -> bool:
+    """every differing line is `Module "m" has no attribute …` (daemon) / `Cannot find implementation or library stub
+    for module named "m"` or the missing-imports note (fresh), for the same modules"""
+    dm = set()
+    for l in only_daemon:
+        m = re.search(r'error: Module "([\w.]+)" has no attribute ', l)
+        if not m:
+            return False
+        dm.add(m.group(1))
+    fm = set()
+    for l in only_fresh:
+        m = re.search(r'error: Cannot find implementation or library stub for module named "([\w.]+)"', l)
+        if m:
+            fm.add(m.group(1))
+        elif "note: See https://mypy.readthedocs.io/en/stable/running_mypy.html#missing-imports" not in l:
+            return False
+    return bool(dm) and dm == fm
+
+
 def minimal_history(hist: list[dict], recs: list[dict], i: int) -> list[dict]:
     """the steps since the last (re)start of the server up to step i — what a replay needs"""
     j = i
@@ -934,10 +972,19 @@ WITNESSES = [
     ("defer-final", {"main.py": "from typing import List\nclass N1(N1, N0): pass\nN0 = List[N1]\n"}, [], "batch"),
     ("semanal-cap", {"main.py": "from typing import NamedTuple\nclass NT(NamedTuple):\n    def get_other(self) -> Other: pass\n"
                                 "class C(D): pass\nclass D(C): pass\n"}, [], "batch"),
+    ("unpack-undefined", {"main.py": "from collections.abc import Callable\nfrom typing import Unpack\n"
+                                     "type F = Callable[[Unpack[Undefined], int], int]\n"
+                                     "def ff(a: float, b: int, c: int) -> int:\n    return 2\nbis: F = ff\nbis(1.0, 2, 3)\n"}, [], "batch"),
     ("daemon-new-import", [{"main.py": "x: int = 1\n"}, {"main.py": "import unittest\nx: int = 1\n"},
                            {"main.py": "import xml.dom.minidom\nx: int = ''\n"}], [], "daemon"),
     ("daemon-flushed-files", [{"main.py": "x: int = 1\n"}, {"main.py": "import json\nx: int = ''\n"},
                               {"main.py": "x: int = ''\n"}, {"main.py": "x: int = 1\n"}], [], "daemon"),
+    ("daemon-class-to-typeddict", [{"main.py": "class A: pass\n"},
+                                   {"main.py": "from typing import TypedDict\nA = TypedDict(\"A\", {\"foo\": int})\na = A({\"foo\": 1})\n"},
+                                   {"main.py": "x = 1\n"}], [], "daemon"),
+    ("daemon-blocker-in-reprocess", "corpus/c20/daemon_blocker_in_reprocess.json", [], "daemon"),
+    # a function that has to be deferred twice: the daemon runs a single second pass after an edit
+    ("daemon-single-second-pass", [{"main.py": "x: int = 1\n"}, {"main.py": gen.defer_chain(2)}], [], "daemon-compare"),
 ]
 
 
@@ -945,6 +992,24 @@ def witnesses(ctx: Ctx, runner: Runner, info: dict) -> None:
     """one explicit replay per known class keeps it visible (and shows when a fix removes it)"""
     for wid, files, flags, kind in WITNESSES:
         ctx.dist("witness", wid)
+        if kind == "daemon-compare":
+            hist = [{"write": w, "delete": [], "probe": False, "origin": "witness", "kinds": []} for w in files]
+            recs = run_history(ctx, runner, 950, hist, [])
+            r = recs[-1]
+            if not r or r.get("resp") is None:
+                raise ToolFailure(f"daemon witness {wid} did not run: {r}")
+            _rc, fresh = fresh_output(runner, "w_" + wid, files[-1], [])
+            got = [l for l in (r["resp"].get("out") or "").split("\n") if l.strip()]
+            ctx.case(("witness", wid))
+            same = sorted(got) == sorted(fresh)
+            ctx.coverage.setdefault("witness_verdicts", {})[wid] = "same-as-fresh" if same else "differs-from-fresh"
+            if not same:
+                obs = {"class": "daemon-differs-from-fresh", "mode": "daemon",
+                       "left_deferred": bool((r.get("trace") or {}).get("left_deferred")),
+                       "only_fresh_has_lines": bool(set(fresh) - set(got)), "only_daemon_has_lines": bool(set(got) - set(fresh))}
+                ctx.report(obs, f"daemon answer differs from a fresh run on the witness {wid}: only fresh {sorted(set(fresh) - set(got))[:3]}",
+                           {"daemon_history": [{"write": w, "delete": []} for w in files], "daemon_out": got, "fresh_out": fresh})
+            continue
         if kind == "batch":
             tmo = 8 if wid == "F6-pow" else None
             res = runner.run("w_" + wid, files, flags, timeout=tmo)
@@ -959,7 +1024,13 @@ def witnesses(ctx: Ctx, runner: Runner, info: dict) -> None:
                            {"files": files, "flags": flags, "cmd": "python -m mypy --show-traceback " + " ".join(flags + ["main.py"]),
                             "output_tail": (res["out"] + res["err"])[-1200:], "model_verdict": v})
         else:
-            hist = [{"write": w, "delete": [], "probe": False, "origin": "witness", "kinds": []} for w in files]
+            if isinstance(files, str):
+                from harness.vlib.core import VERIF
+                stored = json.load(open(os.path.join(VERIF, files)))["daemon_history"]
+                hist = [{"write": s_["write"], "delete": s_.get("delete", []), "probe": False, "origin": "witness", "kinds": []}
+                        for s_ in stored]
+            else:
+                hist = [{"write": w, "delete": [], "probe": False, "origin": "witness", "kinds": []} for w in files]
             recs = run_history(ctx, runner, 900 + len(ctx.coverage.get("witness_verdicts", {})), hist, [])
             ctx.case(("witness", wid))
             verdict = "accepted"
